@@ -471,7 +471,15 @@ def call(px, st, name, t, args, fid, fn):
     # ---- numeric conversions kept symbolic but pure
     if PURE_RE.search(n) and not MUTATOR_RE.search(n):
         if n.endswith('::binary_search') or n.endswith('::binary_search_by_key') or n.endswith('::binary_search_by'):
-            snap = tuple(px.deep_snap(st, px.deref_value(st, a) if a[0] in ('ref', 'cref') else a) for a in args)
+            def through(a):
+                # `vec.binary_search(..)` goes through Deref: the searched collection is the vector behind the transparent wrapper
+                for _ in range(4):
+                    if a[0] == 'pure' and a[1].split('::')[-1] in ('deref', 'as_slice', 'as_ref', 'borrow', 'deref_mut', 'as_mut_slice') and len(a[2]) == 1:
+                        a = a[2][0]
+                    else:
+                        break
+                return a
+            snap = tuple(px.deep_snap(st, px.deref_value(st, through(a)) if through(a)[0] in ('ref', 'cref') else a) for a in args)
             return [(st, ('call', n, tuple(args), st.uid(), snap))]
         return [(st, pure(n, px.snap_args(st, args)))]
     if FMT_RE.search(n):
@@ -546,7 +554,52 @@ def totality(name):
                  r'RangeInclusive::<Idx>::(contains|new)$|Range::<Idx>::contains$|::serialize_str$|::deserialize_str$|::deserialize_string$|::deserialize_any$|'
                  r'::custom$|::into_boxed_slice$|::iter$|::get$|::first$|::last$|::fold$|::for_each$|::next_back$|::size_hint$|::drop$|::write_char$)', n):
         return 'total'
+    if TOTAL_EXTRA_RE.search(n):
+        return 'total'
     return 'unknown'
+
+
+# further std functions that neither panic nor diverge for any argument (read in the sysroot sources; allocation failure out of scope).
+# Deliberately absent: anything that indexes or splits at a caller-supplied position, step_by / chunks / windows (panic on 0),
+# unwrap / expect, RefCell borrows, integer abs / pow / division helpers, iterator sources that never end are not an issue of totality
+# of the call itself (the loop rule of C01 looks at the iterator type).
+TOTAL_EXTRA_RE = re.compile(r'''(
+    iter::Iterator::(flat_map|flatten|chain|rev|skip|take|skip_while|take_while|map_while|scan|inspect|fuse|by_ref|enumerate|peekable|last|nth|
+        min_by|max_by|min_by_key|max_by_key|count|sum|product|unzip|partition|eq|ne|lt|le|gt|ge|cmp|partial_cmp|rposition|reduce|is_sorted|
+        cycle|filter|filter_map|map|zip|copied|cloned|fold|for_each|try_for_each|try_fold|find|find_map|position|any|all|collect|nth_back|rfold|rfind)$|
+    iter::(once|once_with|empty|repeat|repeat_with|from_fn|successors|zip)$|iter::Peekable::<I>::(next_if|next_if_eq|peek_mut)$|
+    iter::(DoubleEndedIterator|ExactSizeIterator)::(next_back|rev|len|rfind|rfold|nth_back)$|as\ std::iter::(DoubleEndedIterator|ExactSizeIterator)>::(next_back|len)$|
+    BTreeMap::<K,\ V,\ A>::(contains_key|get|get_mut|get_key_value|entry|first_key_value|last_key_value|keys|values|values_mut|iter|iter_mut|len|is_empty|retain|append|extend|pop_first|pop_last|into_keys|into_values)$|
+    BTreeMap::<K,\ V>::new$|btree_map::Entry::<'a,\ K,\ V,\ A>::(or_default|or_insert|or_insert_with|or_insert_with_key|and_modify|key)$|
+    BTreeSet::<T,\ A>::(contains|insert|remove|get|iter|len|is_empty|first|last|retain|extend)$|BTreeSet::<T>::new$|
+    slice::<impl\ \[T\]>::(partition_point|contains|starts_with|ends_with|first|last|split_first|split_last|iter|iter_mut|get|get_mut|to_vec|concat|join|
+        is_sorted|is_sorted_by|is_sorted_by_key|binary_search|binary_search_by|binary_search_by_key|sort|sort_by|sort_by_key|sort_unstable|sort_unstable_by|sort_unstable_by_key|
+        reverse|fill|len|is_empty|split|splitn|rsplit|split_mut|strip_prefix|strip_suffix|eq_ignore_ascii_case|is_ascii|to_ascii_lowercase|to_ascii_uppercase|
+        make_ascii_lowercase|make_ascii_uppercase|first_mut|last_mut|iter|as_ptr|escape_ascii|trim_ascii|trim_ascii_start|trim_ascii_end)$|
+    vec::Vec::<T,\ A>::(push|pop|clear|truncate|retain|retain_mut|dedup|dedup_by|dedup_by_key|extend_from_slice|append|reserve|reserve_exact|shrink_to_fit|shrink_to|capacity|len|is_empty|
+        as_slice|as_mut_slice|into_boxed_slice|first|last|iter|contains|leak|resize|resize_with|extend|as_ptr|spare_capacity_mut)$|vec::Vec::<T>::(new|with_capacity)$|
+    str::<impl\ str>::(len|is_empty|as_bytes|chars|bytes|char_indices|trim|trim_start|trim_end|trim_matches|trim_start_matches|trim_end_matches|split|splitn|rsplit|rsplitn|split_once|rsplit_once|
+        split_whitespace|split_terminator|lines|find|rfind|contains|starts_with|ends_with|strip_prefix|strip_suffix|to_owned|to_string|parse|get|is_char_boundary|eq_ignore_ascii_case|
+        to_lowercase|to_uppercase|to_ascii_lowercase|to_ascii_uppercase|make_ascii_lowercase|make_ascii_uppercase|is_ascii|repeat|replace|replacen|matches|match_indices|split_ascii_whitespace|trim_ascii)$|
+    string::String::(new|with_capacity|push|push_str|as_str|len|is_empty|clear|capacity|reserve|into_bytes|as_bytes|into_boxed_str|pop|shrink_to_fit|from_utf8|from_utf8_lossy|as_mut_str)$|
+    str::(from_utf8|from_utf8_mut)$|str::converts::(from_utf8|from_utf8_mut)$|
+    num::<impl\ (u8|u16|u32|u64|u128|usize|i8|i16|i32|i64|i128|isize)>::(is_ascii\w*|to_ascii_\w+|eq_ignore_ascii_case|checked_\w+|wrapping_\w+|saturating_\w+|overflowing_\w+|
+        from_[lbn]e_bytes|to_[lbn]e_bytes|count_ones|count_zeros|leading_zeros|trailing_zeros|swap_bytes|to_be|to_le|from_be|from_le|min|max|is_power_of_two|rotate_left|rotate_right|from_str_radix|MAX|MIN)$|
+    char::methods::<impl\ char>::(is_ascii\w*|to_ascii_\w+|eq_ignore_ascii_case|is_alphabetic|is_alphanumeric|is_numeric|is_lowercase|is_uppercase|is_whitespace|is_control|len_utf8|
+        to_lowercase|to_uppercase|encode_utf8|from_u32)$|char::convert::<impl\ std::convert::(From|TryFrom)<\w+>\ for\ \w+>::(from|try_from)$|
+    mem::(swap|replace|take|drop|size_of|size_of_val|discriminant)$|cmp::(min|max|min_by|max_by|min_by_key|max_by_key)$|cmp::Ord::(cmp|min|max|clamp)$|cmp::Ordering::(then|then_with|reverse|is_eq|is_ne|is_lt|is_le|is_gt|is_ge)$|
+    cmp::(PartialOrd|PartialEq|Ord)::(lt|le|gt|ge|eq|ne|partial_cmp|cmp)$|as\ std::cmp::(PartialOrd|PartialEq|Ord)(<[^>]*>)?>::(lt|le|gt|ge|eq|ne|partial_cmp|cmp)$|
+    option::Option::<T>::(is_some|is_none|is_some_and|is_none_or|as_ref|as_mut|as_deref|as_deref_mut|map|map_or|map_or_else|ok_or|ok_or_else|and|and_then|or|or_else|xor|filter|take|replace|insert|
+        get_or_insert|get_or_insert_with|zip|unzip|unwrap_or|unwrap_or_else|unwrap_or_default|iter|iter_mut|cloned|copied|flatten|transpose|inspect|take_if)$|
+    result::Result::<T,\ E>::(is_ok|is_err|is_ok_and|is_err_and|ok|err|as_ref|as_mut|as_deref|map|map_or|map_or_else|map_err|and|and_then|or|or_else|unwrap_or|unwrap_or_else|unwrap_or_default|
+        iter|cloned|copied|flatten|transpose|inspect|inspect_err)$|bool::<impl\ bool>::(then|then_some)$|
+    boxed::Box::<T>::new$|boxed::Box::<\[T\],\ A>::into_vec$|borrow::ToOwned::to_owned$|string::ToString::to_string$|as\ std::string::ToString>::to_string$|
+    convert::(From|Into|AsRef|AsMut)::(from|into|as_ref|as_mut)$|as\ std::convert::(From|Into|AsRef|AsMut)<[^>]*>>::(from|into|as_ref|as_mut)$|
+    as\ std::iter::(IntoIterator|FromIterator<[^>]*>|Extend<[^>]*>)>::(into_iter|from_iter|extend)$|as\ std::(clone::Clone|default::Default)>::(clone|clone_from|default)$|
+    as\ std::ops::(Deref|DerefMut|Not|Drop)>::(deref|deref_mut|not|drop)$|as\ std::hash::Hash>::hash$|hash::Hash::hash$|hash::Hasher::\w+$|
+    fmt::Formatter::<'a>::(write_str|write_fmt|pad|pad_integral|debug_\w+|alternate|width|precision|fill)$|fmt::Write::(write_str|write_char|write_fmt)$|as\ std::fmt::\w+>::fmt$|
+    fmt::Arguments::<'a>::(new|new_const|new_v1|new_v1_formatted|from_str|as_str)$|fmt::rt::Argument::<'_>::(new_display|new_debug|new_lower_hex|new_upper_hex)$|fmt::format$|alloc::fmt::format$
+)''', re.X)
 
 
 def iter_id(px, st, a):
